@@ -387,6 +387,9 @@ pub fn run(seed: u64, tier: &str, w: &mut dyn Write) -> usize {
     n += plain(w, &mut r, "fib-a", Kind::Fib, fib, &cfg_a, 5, true);
     n += plain(w, &mut r, "perm-b", Kind::Perm, perm, &cfg_b, 5, true);
     n += family_lookup_cases(w, &mut r, &cfg_b, thorough);
+    // the in-circuit cross-table-lookup evaluator against the native one (verify_stark_proof_circuit itself
+    // is always called without CTL data by this harness)
+    n += crate::c10::ctl_circuit_cases(w, &mut r, if thorough { 40 } else { 12 });
     if thorough {
         n += plain(w, &mut r, "fib-b", Kind::Fib, fib, &cfg_b, 7, true);
         n += plain(w, &mut r, "fib-a", Kind::Fib, fib, &cfg_a, 9, true);
